@@ -55,6 +55,29 @@ fn base_env(c: &mut Command, ctx: &Ctx) {
     }
 }
 
+/// File name of the LD_PRELOAD shim next to the executables (see sim/shim/fusim_shim.c).
+pub const SHIM: &str = "fusim_shim.so";
+
+/// In a third of the runs (chosen by `h`, a number derived from the scenario) the executable
+/// gets a system-call seam of its own: its write(1) and read(0) return short counts and EINTR.
+/// Nothing it prints, reads or runs may change for that.
+fn shim_env(c: &mut Command, bins: &Path, h: usize) {
+    let shim = bins.join(SHIM);
+    if h % 3 != 0 || !shim.exists() {
+        return;
+    }
+    let k = h / 3;
+    c.env("LD_PRELOAD", &shim);
+    c.env("FUSIM_SHIM_WRITE", [1usize, 3, 7, 100, 1000][k % 5].to_string());
+    c.env("FUSIM_SHIM_READ", [1usize, 2, 13, 4095][(k / 5) % 4].to_string());
+    if let Some(n) = [None, Some(2usize), Some(5)][(k / 20) % 3] {
+        c.env("FUSIM_SHIM_WRITE_EINTR", n.to_string());
+    }
+    if let Some(n) = [None, Some(3usize), Some(7)][(k / 60) % 3] {
+        c.env("FUSIM_SHIM_READ_EINTR", n.to_string());
+    }
+}
+
 fn show_args(v: &[Vec<u8>]) -> String {
     v.iter().map(|a| format!("[{}]", crate::sys::show(&a[..a.len().min(60)]))).collect::<Vec<_>>().join(" ")
 }
@@ -135,6 +158,7 @@ pub fn xargs(sc: &XargsScenario, plan: &[ReadOp], ctx: &mut Ctx, bins: &Path) ->
     for (k, v) in &sc.extra.ambient.env {
         c.env(k, v);
     }
+    shim_env(&mut c, bins, h / 7 + sc.input.0.iter().map(|b| *b as usize).sum::<usize>());
     let mut child = match c.spawn() {
         Ok(c) => c,
         Err(e) => return Xc::Disagree(format!("cannot start {}: {e}", bins.join("xargs").display())),
@@ -268,6 +292,7 @@ pub fn find_real(sc: &FindScenario, ctx: &mut Ctx, bins: &Path, sub: &str, cmd_t
     if bare_cmd {
         c.env("PATH", "/usr/bin::/bin");
     }
+    shim_env(&mut c, bins, full.iter().map(|a| a.len()).sum::<usize>() + sc.tree.nodes.len() * 7 + sc.tree.bulk.len());
     let mut child = c.spawn().map_err(|e| format!("cannot start {}: {e}", bins.join("find").display()))?;
     let writer = list_on_stdin.map(|list| {
         let mut stdin = child.stdin.take().unwrap();
@@ -468,11 +493,14 @@ pub fn pipeline_real(find_sc: &FindScenario, xargs_opts: &[String], outcomes: &[
     let mut f = Command::new(bins.join("find"));
     f.args(find_sc.full_argv()).current_dir(&root).stdin(Stdio::null()).stdout(Stdio::piped()).stderr(Stdio::null());
     base_env(&mut f, ctx);
+    let h = find_sc.tree.nodes.len() * 5 + find_sc.full_argv().iter().map(|a| a.len()).sum::<usize>() + find_sc.tree.bulk.len() * 3;
+    shim_env(&mut f, bins, h);
     let mut fchild = f.spawn().map_err(|e| format!("cannot start find: {e}"))?;
     let pipe = fchild.stdout.take().unwrap();
     let mut x = Command::new(bins.join("xargs"));
     x.args(xargs_opts).arg(&ctx.simchild).arg(&lp).arg(&sp).arg("fixed").current_dir(&root).stdin(Stdio::from(pipe)).stdout(Stdio::null()).stderr(Stdio::null());
     base_env(&mut x, ctx);
+    shim_env(&mut x, bins, h / 2 + 1);
     let xs = x.status().map_err(|e| format!("cannot start xargs: {e}"))?;
     let fs_ = fchild.wait().map_err(|e| e.to_string())?;
     let log = parse_child_log(&std::fs::read(&lp).unwrap_or_default());
